@@ -16,9 +16,39 @@ derive
 traits Clone Eq
 @*/
 
+/*@ extract src/shredder/shred_index.rs :: struct ShredIndex
+derive Clone, Copy
+traits Eq
+@*/
 // TRUSTED opaque stand-ins for types whose content is irrelevant to block reconstruction
+// the parts of a shred read by the blockstore (src/shredder.rs): header fields, shred index, signed commitment
+pub struct SliceHeader { pub slot: Slot, pub slice_index: SliceIndex, pub is_last: bool }
+pub struct ShredPayload { pub header: SliceHeader, pub shred_index: ShredIndex }
 #[verifier::external_body] pub struct ValidatedShred { _p: () }
 #[verifier::external_body] pub struct SliceCommitment { _p: () }
+impl Clone for SliceCommitment {
+    #[verifier::external_body]
+    fn clone(&self) -> (r: Self) ensures r == *self { unimplemented!() }
+}
+impl Copy for SliceCommitment {}
+impl vstd::std_specs::cmp::PartialEqSpecImpl for SliceCommitment {
+    open spec fn obeys_eq_spec() -> bool { true }
+    open spec fn eq_spec(&self, other: &SliceCommitment) -> bool { *self == *other }
+}
+impl PartialEq for SliceCommitment {
+    #[verifier::external_body]
+    fn eq(&self, other: &Self) -> (r: bool) ensures r == (*self == *other) { unimplemented!() }
+}
+impl ValidatedShred {
+    pub uninterp spec fn spec_payload(&self) -> ShredPayload;
+    pub uninterp spec fn spec_commitment(&self) -> SliceCommitment;
+    #[verifier::external_body]
+    pub fn payload(&self) -> (r: &ShredPayload) ensures *r == self.spec_payload() { unimplemented!() }
+    // the leader-signed commitment (slot, slice index, last flag, slice root) of this shred
+    #[verifier::external_body]
+    pub fn commitment(&self) -> (r: SliceCommitment) ensures r == self.spec_commitment() { unimplemented!() }
+}
+#[verifier::external_body] pub struct RegularShredder { _p: () }
 #[verifier::external_body] pub struct Transaction { _p: () }
 #[verifier::external_body] pub struct DoubleMerkleTree { _p: () }
 impl DoubleMerkleTree {
@@ -30,6 +60,7 @@ impl DoubleMerkleTree {
 
 // TRUSTED stand-in for ReconstructedSlice (src/types/slice.rs; derefs to Slice): the three parts read here
 pub struct ReconstructedSlice {
+    pub slice_index: SliceIndex,
     pub parent: Option<BlockId>,
     pub data: Vec<u8>,
     pub slice_root: SliceRoot,
@@ -46,11 +77,115 @@ derive
 /*@ extract src/consensus/blockstore/slot_block_data.rs :: enum ReconstructBlockResult
 derive
 @*/
+/*@ extract src/consensus/blockstore/slot_block_data.rs :: enum ReconstructSliceResult
+derive
+@*/
+/*@ extract src/consensus/blockstore/slot_block_data.rs :: enum AddShredError
+derive Clone, Copy
+@*/
+/*@ extract src/consensus/blockstore.rs :: enum BlockstoreEvent
+derive
+@*/
+/*@ extract src/shredder.rs :: enum DeshredError
+derive Clone, Copy
+@*/
+/*@ extract src/consensus/blockstore/slot_block_data.rs :: struct SlotBlockData
+@*/
 
 pub const TOTAL_SHREDS: usize = 64;
 
+
+pub open spec fn row_at(sh: Map<SliceIndex, [Option<ValidatedShred>; TOTAL_SHREDS]>, k: SliceIndex, i: int) -> Option<ValidatedShred> { sh[k]@[i] }
+pub open spec fn wf_parts(sl: Map<SliceIndex, ReconstructedSlice>, sh: Map<SliceIndex, [Option<ValidatedShred>; TOTAL_SHREDS]>,
+                          cc: Map<SliceIndex, SliceCommitment>, last: Option<SliceIndex>) -> bool {
+    &&& sl.dom().finite() && sh.dom().finite()
+    // W1: nothing is kept beyond the slice marked last
+    &&& (last matches Some(l) ==> l.0 < 1024
+            && (forall|k: SliceIndex| #[trigger] sl.contains_key(k) ==> k.0 <= l.0)
+            && (forall|k: SliceIndex| #[trigger] sh.contains_key(k) ==> k.0 <= l.0))
+    // W2: a reconstructed first slice names a parent
+    &&& (sl.contains_key(SliceIndex(0)) ==> sl[SliceIndex(0)].parent is Some)
+    // W4/W5: every stored shred sits under its own slice index and carries the commitment cached for that slice
+    //        (so two conflicting versions of a slice are never stored side by side)
+    &&& forall|k: SliceIndex, i: int| sh.contains_key(k) && 0 <= i < TOTAL_SHREDS && (#[trigger] row_at(sh, k, i)) is Some ==>
+            (row_at(sh, k, i)->0).spec_payload().header.slice_index == k
+            && cc.contains_key(k) && cc[k] == (row_at(sh, k, i)->0).spec_commitment()
+}
+
 impl BlockData {
     pub open spec fn slice(&self, i: int) -> ReconstructedSlice { self.slices@[SliceIndex(i as usize)] }
+    pub open spec fn shred_at(&self, k: SliceIndex, i: int) -> Option<ValidatedShred> { row_at(self.shreds@, k, i) }
+    // representation invariant of one block's data (a function of the four parts it constrains)
+    pub open spec fn wf(&self) -> bool { wf_parts(self.slices@, self.shreds@, self.commitment_cache@, self.last_slice) }
+    pub open spec fn last_consistent(l: SliceIndex, si: SliceIndex, is_last: bool) -> bool {
+        (si.0 < l.0 && !is_last) || (si == l && is_last)
+    }
+}
+
+
+// the shred rows after `deshred` filled in missing shreds of slice `index`: W4/W5 and "nothing stored is lost" carry over
+pub proof fn lemma_rows_after_deshred(pre: BlockData, cur: BlockData, index: SliceIndex,
+                                      row0: [Option<ValidatedShred>; TOTAL_SHREDS], row1: [Option<ValidatedShred>; TOTAL_SHREDS])
+    requires
+        pre.wf(), pre.shreds@.contains_key(index), row0 == pre.shreds@[index],
+        cur.shreds@ == pre.shreds@.insert(index, row1), cur.commitment_cache == pre.commitment_cache,
+        forall|i: int| 0 <= i < TOTAL_SHREDS && (#[trigger] row0@[i]) is Some ==> row1@[i] == row0@[i],
+        forall|i: int| 0 <= i < TOTAL_SHREDS && (#[trigger] row1@[i]) is Some && row0@[i] is None ==>
+            exists|j: int| 0 <= j < TOTAL_SHREDS && row0@[j] is Some
+                && (row1@[i]->0).spec_payload().header == (row0@[j]->0).spec_payload().header
+                && (row1@[i]->0).spec_commitment() == (row0@[j]->0).spec_commitment(),
+    ensures
+        forall|k: SliceIndex, i: int| cur.shreds@.contains_key(k) && 0 <= i < TOTAL_SHREDS && (#[trigger] row_at(cur.shreds@, k, i)) is Some ==>
+            (row_at(cur.shreds@, k, i)->0).spec_payload().header.slice_index == k
+            && cur.commitment_cache@.contains_key(k) && cur.commitment_cache@[k] == (row_at(cur.shreds@, k, i)->0).spec_commitment(),
+        forall|k: SliceIndex| #[trigger] cur.shreds@.contains_key(k) <==> pre.shreds@.contains_key(k),
+        forall|k: SliceIndex, i: int| pre.shreds@.contains_key(k) && 0 <= i < TOTAL_SHREDS && (#[trigger] row_at(pre.shreds@, k, i)) is Some
+            ==> row_at(cur.shreds@, k, i) == row_at(pre.shreds@, k, i),
+{
+    assert forall|k: SliceIndex, i: int| cur.shreds@.contains_key(k) && 0 <= i < TOTAL_SHREDS && (#[trigger] row_at(cur.shreds@, k, i)) is Some implies
+        (row_at(cur.shreds@, k, i)->0).spec_payload().header.slice_index == k
+        && cur.commitment_cache@.contains_key(k) && cur.commitment_cache@[k] == (row_at(cur.shreds@, k, i)->0).spec_commitment() by {
+        if k == index {
+            if row0@[i] is Some { assert(row_at(pre.shreds@, k, i) == row0@[i]); } else {
+                let j = choose|j: int| 0 <= j < TOTAL_SHREDS && row0@[j] is Some
+                    && (row1@[i]->0).spec_payload().header == (row0@[j]->0).spec_payload().header
+                    && (row1@[i]->0).spec_commitment() == (row0@[j]->0).spec_commitment();
+                assert(row_at(pre.shreds@, index, j) is Some);
+            }
+        } else { assert(row_at(cur.shreds@, k, i) == row_at(pre.shreds@, k, i)); }
+    }
+    assert forall|k: SliceIndex, i: int| pre.shreds@.contains_key(k) && 0 <= i < TOTAL_SHREDS && (#[trigger] row_at(pre.shreds@, k, i)) is Some
+        implies row_at(cur.shreds@, k, i) == row_at(pre.shreds@, k, i) by {
+        if k == index { assert(row0@[i] is Some); }
+    }
+}
+
+// Pigeonhole: l+1 distinct slice indices, none above l, include index 0 (in fact all of 0..=l).
+pub open spec fn idx_upto(l: int) -> Set<SliceIndex>
+    decreases l
+{
+    if l <= 0 { Set::<SliceIndex>::empty().insert(SliceIndex(0)) } else { idx_upto(l - 1).insert(SliceIndex(l as usize)) }
+}
+pub proof fn lemma_idx_upto(l: int)
+    requires 0 <= l < usize::MAX
+    ensures idx_upto(l).finite() && idx_upto(l).len() == l + 1 && forall|k: SliceIndex| #[trigger] idx_upto(l).contains(k) <==> k.0 <= l
+    decreases l
+{
+    if l > 0 {
+        lemma_idx_upto(l - 1);
+        assert(!idx_upto(l - 1).contains(SliceIndex(l as usize)));
+    }
+}
+pub proof fn lemma_pigeon(dom: Set<SliceIndex>, l: int)
+    requires 0 <= l < usize::MAX, dom.finite(), dom.len() == l + 1, forall|k: SliceIndex| #[trigger] dom.contains(k) ==> k.0 <= l,
+    ensures dom.contains(SliceIndex(0))
+{
+    lemma_idx_upto(l);
+    if !dom.contains(SliceIndex(0)) {
+        let rest = idx_upto(l).remove(SliceIndex(0));
+        assert(dom.subset_of(rest));
+        vstd::set_lib::lemma_len_subset(dom, rest);
+    }
 }
 
 pub mod code {
@@ -109,6 +244,89 @@ pub fn verif_block_info_from(block: &Block) -> (r: BlockInfo)
 #[verifier::external_body]
 pub fn verif_remove_slices_until(slices: &mut BTreeMap<SliceIndex, ReconstructedSlice>, last: SliceIndex)
     // for slice_index in last_slice.until() { self.slices.remove(&slice_index); }
+    ensures
+        forall|k: SliceIndex| #[trigger] final(slices)@.contains_key(k) ==> old(slices)@.contains_key(k) && k.0 > last.0 && final(slices)@[k] == old(slices)@[k],
+        final(slices)@.dom().finite(),
+{ unimplemented!() }
+
+
+impl ShredIndex {
+/*@ extract src/shredder/shred_index.rs :: impl ShredIndex/fn inner
+ret r
+ensures
+        r == self.0,
+@*/
+}
+impl RegularShredder {
+    // ASSUMED contract of Shredder::deshred (Reed-Solomon + Merkle re-check, C11/C12): shreds that are present stay as they
+    // are (missing ones may be filled in), and a reconstructed slice carries the header of the shreds it was built from.
+    #[verifier::external_body]
+    pub fn deshred(&mut self, shreds: &mut [Option<ValidatedShred>; TOTAL_SHREDS]) -> (r: Result<ReconstructedSlice, DeshredError>)
+        ensures
+            forall|i: int| 0 <= i < TOTAL_SHREDS && (#[trigger] old(shreds)@[i]) is Some ==> final(shreds)@[i] == old(shreds)@[i],
+            forall|i: int| 0 <= i < TOTAL_SHREDS && (#[trigger] final(shreds)@[i]) is Some && old(shreds)@[i] is None ==>
+                exists|j: int| 0 <= j < TOTAL_SHREDS && old(shreds)@[j] is Some
+                    && (final(shreds)@[i]->0).spec_payload().header == (old(shreds)@[j]->0).spec_payload().header
+                    && (final(shreds)@[i]->0).spec_commitment() == (old(shreds)@[j]->0).spec_commitment(),
+            r matches Ok(sl) ==> exists|j: int| 0 <= j < TOTAL_SHREDS && old(shreds)@[j] is Some
+                    && sl.slice_index == (#[trigger] old(shreds)@[j]->0).spec_payload().header.slice_index,
+    { unimplemented!() }
+}
+// R5: `self.shreds.entry(k).or_insert([const { None }; TOTAL_SHREDS])`: the shred row of slice k, created empty on first use
+#[verifier::external_body]
+pub fn verif_shreds_entry(m: &mut BTreeMap<SliceIndex, [Option<ValidatedShred>; TOTAL_SHREDS]>, k: SliceIndex) -> (r: &mut [Option<ValidatedShred>; TOTAL_SHREDS])
+    ensures
+        old(m)@.contains_key(k) ==> *r == old(m)@[k],
+        !old(m)@.contains_key(k) ==> forall|i: int| 0 <= i < TOTAL_SHREDS ==> (#[trigger] r@[i]) is None,
+        final(m)@ == old(m)@.insert(k, *final(r)),
+{ unimplemented!() }
+// R8: `self.shreds.get_mut(&k).expect(..)`: the expect is a proof obligation
+#[verifier::external_body]
+pub fn verif_shreds_get_mut<'a>(m: &'a mut BTreeMap<SliceIndex, [Option<ValidatedShred>; TOTAL_SHREDS]>, k: &SliceIndex) -> (r: &'a mut [Option<ValidatedShred>; TOTAL_SHREDS])
+    requires
+        // [C13.reconstruct_only_slices_with_a_stored_shred C10.expect_unreachable]
+        old(m)@.contains_key(*k),
+    ensures
+        *r == old(m)@[*k],
+        final(m)@ == old(m)@.insert(*k, *final(r)),
+{ unimplemented!() }
+// R8: `row[i] = Some(shred)` on a fixed-size array
+#[verifier::external_body]
+pub fn verif_row_set(row: &mut [Option<ValidatedShred>; TOTAL_SHREDS], i: usize, v: Option<ValidatedShred>)
+    requires i < TOTAL_SHREDS
+    ensures final(row)@ == old(row)@.update(i as int, v)
+{ unimplemented!() }
+#[verifier::external_body]
+pub fn verif_row_is_some(row: &[Option<ValidatedShred>; TOTAL_SHREDS], i: usize) -> (r: bool)
+    requires i < TOTAL_SHREDS
+    ensures r == (row@[i as int] is Some)
+{ unimplemented!() }
+// R8: `m.retain(|&ind, _| keep(ind))` on the per-slice maps: keeps exactly the entries whose key satisfies the closure
+pub trait VerifRetainKeys<V>: Sized {
+    spec fn spec_map(&self) -> Map<SliceIndex, V>;
+    fn verif_retain<F: Fn(SliceIndex) -> bool>(&mut self, f: F)
+        requires forall|k: SliceIndex| #[trigger] f.requires((k,))
+        ensures
+            forall|k: SliceIndex| #[trigger] final(self).spec_map().contains_key(k) ==> old(self).spec_map().contains_key(k) && final(self).spec_map()[k] == old(self).spec_map()[k],
+            forall|k: SliceIndex| old(self).spec_map().contains_key(k) ==> f.ensures((k,), #[trigger] final(self).spec_map().contains_key(k)),
+            old(self).spec_map().dom().finite() ==> final(self).spec_map().dom().finite();
+}
+impl<V> VerifRetainKeys<V> for BTreeMap<SliceIndex, V> {
+    open spec fn spec_map(&self) -> Map<SliceIndex, V> { self@ }
+    #[verifier::external_body]
+    fn verif_retain<F: Fn(SliceIndex) -> bool>(&mut self, f: F) { unimplemented!() }
+}
+// R8: `self.shreds.keys().any(|&ind| pred(ind))`: true iff some key satisfies the closure
+#[verifier::external_body]
+pub fn verif_any_key<F: Fn(SliceIndex) -> bool>(m: &BTreeMap<SliceIndex, [Option<ValidatedShred>; TOTAL_SHREDS]>, f: F) -> (r: bool)
+    requires forall|k: SliceIndex| #[trigger] f.requires((k,))
+    ensures
+        r ==> exists|k: SliceIndex| m@.contains_key(k) && f.ensures((k,), true),
+        !r ==> forall|k: SliceIndex| #[trigger] m@.contains_key(k) ==> f.ensures((k,), false),
+{ unimplemented!() }
+#[verifier::external_body]
+pub fn verif_shreds_is_empty(m: &BTreeMap<SliceIndex, [Option<ValidatedShred>; TOTAL_SHREDS]>) -> (r: bool)
+    ensures r == (forall|k: SliceIndex| !m@.contains_key(k))
 { unimplemented!() }
 
 impl BlockData {
@@ -124,14 +342,9 @@ rewrite[R8] `let config = DefaultConfig::default().with_preallocation_size_limit
 rewrite[R8] `BlockInfo::from(&block)` => `verif_block_info_from(&block)`
 rewrite[R8] `for slice_index in last_slice.until() { self.slices.remove(&slice_index); }` => `verif_remove_slices_until(&mut self.slices, last_slice);`
 requires
-        // established by add_shred / try_reconstruct_slice (not under contract here): keys of `slices` are <= last,
-        // and the first slice carries a parent
-        // (mark_last_slice keeps every key <= last, so `len == last + 1` means slices 0..=last are all present)
-        (old(self).last_slice is Some && old(self).slices@.len() == (old(self).last_slice->0).0 + 1) ==> old(self).slices@.contains_key(SliceIndex(0)),
-        old(self).last_slice is Some ==> (old(self).last_slice->0).0 < 1024,
-        old(self).slices@.dom().finite(),
-        old(self).slices@.contains_key(SliceIndex(0)) ==> old(self).slices@[SliceIndex(0)].parent is Some,
+        old(self).wf(),
 ensures
+        final(self).wf(),
         // [C13.block_announced_exactly_once]
         old(self).completed is Some ==> (r is NoAction && final(self).completed == old(self).completed && final(self).slices@ == old(self).slices@),
         r matches ReconstructBlockResult::Complete(info) ==> old(self).completed is None && final(self).completed is Some,
@@ -143,17 +356,253 @@ ensures
             && ((final(self).completed->0).1.parent, (final(self).completed->0).1.parent_hash) == info.parent),
         // [C13.nothing_announced_on_error_or_incomplete]
         !(r is Complete) ==> final(self).completed == old(self).completed,
+        // stored shreds, commitments and the last-slice marker are not touched by block reconstruction
+        final(self).shreds == old(self).shreds && final(self).commitment_cache == old(self).commitment_cache
+            && final(self).last_slice == old(self).last_slice && final(self).slot == old(self).slot,
+        forall|k: SliceIndex| #[trigger] final(self).slices@.contains_key(k) ==> old(self).slices@.contains_key(k) && final(self).slices@[k] == old(self).slices@[k],
+        final(self).slices@.dom().finite(),
 loop 0
         invariant
-            old(self).completed is None,
+            old(self).completed is None && old(self).wf(),
+            self.slices == old(self).slices && self.shreds == old(self).shreds && self.commitment_cache == old(self).commitment_cache
+                && self.last_slice == old(self).last_slice,
             self.completed == old(self).completed,
             self.slot == old(self).slot,
             slot == self.slot,
             self.double_merkle_tree is Some,
             block_hash == (self.double_merkle_tree->0).spec_root(),
         decreases verif_entries@.len() - verif_k,
+before `let slot = self.slot;`
+        proof {
+            if self.last_slice is Some && self.slices@.len() == (self.last_slice->0).0 + 1 {
+                lemma_pigeon(self.slices@.dom(), (self.last_slice->0).0 as int);
+            }
+        }
 @*/
 
+
+/*@ extract src/consensus/blockstore/slot_block_data.rs :: impl BlockData/fn mark_last_slice
+props C13 C10
+rewrite*[R8] `.retain(|&ind, _|` => `.verif_retain(|ind: SliceIndex|`
+requires
+        old(self).wf() && old(self).last_slice is None && slice_index.0 < 1024,
+ensures
+        // [C13.nothing_kept_beyond_the_last_slice C10.slice_count_matches_last_index]
+        final(self).wf(),
+        final(self).last_slice == Some(slice_index),
+        final(self).completed == old(self).completed && final(self).commitment_cache == old(self).commitment_cache && final(self).slot == old(self).slot
+            && final(self).double_merkle_tree == old(self).double_merkle_tree,
+        forall|k: SliceIndex| k.0 <= slice_index.0 ==> (#[trigger] final(self).shreds@.contains_key(k) <==> old(self).shreds@.contains_key(k))
+            && (final(self).shreds@.contains_key(k) ==> final(self).shreds@[k] == old(self).shreds@[k]),
+        forall|k: SliceIndex| k.0 <= slice_index.0 ==> (#[trigger] final(self).slices@.contains_key(k) <==> old(self).slices@.contains_key(k))
+            && (final(self).slices@.contains_key(k) ==> final(self).slices@[k] == old(self).slices@[k]),
+closure *
+        params ind: SliceIndex
+        ret b: bool
+        ensures b == (ind.0 <= slice_index.0)
+before `self.last_slice = Some(slice_index);`
+        let ghost pre = *old(self);
+blockend `self.last_slice = Some(slice_index);`
+        proof {
+            assert forall|k: SliceIndex| #[trigger] self.slices@.contains_key(k) implies k.0 <= slice_index.0 by {}
+            assert forall|k: SliceIndex| #[trigger] self.shreds@.contains_key(k) implies k.0 <= slice_index.0 by {}
+            assert forall|k: SliceIndex, i: int| self.shreds@.contains_key(k) && 0 <= i < TOTAL_SHREDS && (#[trigger] row_at(self.shreds@, k, i)) is Some implies
+                (row_at(self.shreds@, k, i)->0).spec_payload().header.slice_index == k
+                && self.commitment_cache@.contains_key(k) && self.commitment_cache@[k] == (row_at(self.shreds@, k, i)->0).spec_commitment() by {
+                assert(pre.shreds@.contains_key(k) && self.shreds@[k] == pre.shreds@[k]);
+                assert(row_at(self.shreds@, k, i) == row_at(pre.shreds@, k, i));
+            }
+            if self.slices@.contains_key(SliceIndex(0)) { assert(pre.slices@.contains_key(SliceIndex(0))); }
+        }
+@*/
+
+
+/*@ extract src/consensus/blockstore/slot_block_data.rs :: impl BlockData/fn try_reconstruct_slice
+props C13 C10
+ret r
+rewrite[R5] `let entry = match self.slices.entry(index) { Entry::Occupied(_) => return ReconstructSliceResult::NoAction, Entry::Vacant(entry) => entry, };` => `if self.slices.contains_key(&index) { return ReconstructSliceResult::NoAction; }`
+rewrite[R5] `entry.insert(reconstructed_slice);` => `self.slices.insert(index, reconstructed_slice);`
+rewrite[R8] `self .shreds .get_mut(&index) .expect("caller must insert at least one shred before reconstructing")` => `verif_shreds_get_mut(&mut self.shreds, &index)`
+rewrite[R10] `let reconstructed_slice = match shredder.deshred(slice_shreds) {` => `let verif_d = shredder.deshred(slice_shreds); let ghost row1 = *slice_shreds; proof { lemma_rows_after_deshred(pre, *self, index, row0, row1); } let reconstructed_slice = match verif_d {`
+requires
+        old(self).wf(),
+        old(self).shreds@.contains_key(index),
+        old(self).last_slice matches Some(l) ==> index.0 <= l.0,
+ensures
+        final(self).wf(),
+        final(self).completed == old(self).completed && final(self).last_slice == old(self).last_slice && final(self).slot == old(self).slot
+            && final(self).commitment_cache == old(self).commitment_cache && final(self).double_merkle_tree == old(self).double_merkle_tree,
+        // [C13.slice_reconstructed_at_most_once]
+        (old(self).completed is Some || old(self).slices@.contains_key(index)) ==> r is NoAction,
+        r is Complete ==> final(self).slices@.contains_key(index) && final(self).slices@ == old(self).slices@.insert(index, final(self).slices@[index]),
+        !(r is Complete) ==> final(self).slices@ == old(self).slices@,
+        // stored shreds are never lost or altered by reconstruction
+        forall|k: SliceIndex| #[trigger] final(self).shreds@.contains_key(k) <==> old(self).shreds@.contains_key(k),
+        forall|k: SliceIndex, i: int| old(self).shreds@.contains_key(k) && 0 <= i < TOTAL_SHREDS && (#[trigger] row_at(old(self).shreds@, k, i)) is Some
+            ==> row_at(final(self).shreds@, k, i) == row_at(old(self).shreds@, k, i),
+before `let slot = self.slot;`
+        let ghost pre = *old(self);
+after `let slice_shreds = verif_shreds_get_mut(&mut self.shreds, &index);`
+        let ghost row0 = *slice_shreds;
+before `if reconstructed_slice.parent.is_none() && reconstructed_slice.slice_index.is_first() {`
+        proof {
+            let j0 = choose|j: int| 0 <= j < TOTAL_SHREDS && row0@[j] is Some && reconstructed_slice.slice_index == (#[trigger] row0@[j]->0).spec_payload().header.slice_index;
+            assert(row_at(pre.shreds@, index, j0) is Some);
+            assert(reconstructed_slice.slice_index == index);
+        }
+before `self.slices.insert(index, reconstructed_slice);`
+        let ghost mid = *self;
+        let ghost rs = reconstructed_slice;
+after `self.slices.insert(index, reconstructed_slice);`
+        proof {
+            assert(self.shreds@ == mid.shreds@);
+            assert forall|k: SliceIndex, i: int| self.shreds@.contains_key(k) && 0 <= i < TOTAL_SHREDS implies #[trigger] row_at(self.shreds@, k, i) == row_at(mid.shreds@, k, i) by {}
+            assert(self.slices@ == pre.slices@.insert(index, rs));
+            if index == SliceIndex(0) { assert(rs.parent is Some); }
+        }
+@*/
+
+
+/*@ extract src/consensus/blockstore/slot_block_data.rs :: impl BlockData/fn add_shred
+props C13 C12
+ret r
+rewrite[R5] `match self.commitment_cache.entry(slice_index) {` => `match self.commitment_cache.get(&slice_index) {`
+rewrite[R5] `Entry::Occupied(entry) if entry.get() != &shred.commitment() => {` => `Some(entry) if *entry != shred.commitment() => {`
+rewrite[R5] `Entry::Occupied(_) => {}` => `Some(_) => {}`
+rewrite[R5] `Entry::Vacant(entry) => { entry.insert(shred.commitment()); }` => `None => { self.commitment_cache.insert(slice_index, shred.commitment()); }`
+rewrite[R8] `self.shreds.keys().any(|&ind|` => `verif_any_key(&self.shreds, |ind: SliceIndex|`
+rewrite[R8] `self.shreds.is_empty()` => `verif_shreds_is_empty(&self.shreds)`
+rewrite[R5] `self .shreds .entry(slice_index) .or_insert([const { None }; TOTAL_SHREDS])` => `verif_shreds_entry(&mut self.shreds, slice_index)`
+rewrite[R8] `slice_shreds[*shred_index].is_some()` => `verif_row_is_some(slice_shreds, shred_index.inner())`
+rewrite[R8] `slice_shreds[*shred_index] = Some(shred);` => `verif_row_set(slice_shreds, shred_index.inner(), Some(shred));`
+requires
+        old(self).wf(),
+        // type invariants of the bounded indices (enforced at deserialization, C19)
+        shred.spec_payload().shred_index.0 < TOTAL_SHREDS && shred.spec_payload().header.slice_index.0 < 1024,
+ensures
+        final(self).wf(),
+        final(self).slot == old(self).slot,
+        // [C12.second_commitment_for_a_slice_is_equivocation C13.conflicting_slices_are_equivocation]
+        // whatever else the block data holds (also after the block is complete)
+        (old(self).commitment_cache@.contains_key(shred.spec_payload().header.slice_index)
+            && old(self).commitment_cache@[shred.spec_payload().header.slice_index] != shred.spec_commitment())
+            ==> r == Err::<Option<BlockstoreEvent>, AddShredError>(AddShredError::Equivocation)
+                && final(self).shreds == old(self).shreds && final(self).slices == old(self).slices && final(self).commitment_cache == old(self).commitment_cache
+                && final(self).last_slice == old(self).last_slice && final(self).completed == old(self).completed,
+        // [C12.cached_commitment_is_the_first_one_seen]
+        old(self).commitment_cache@.contains_key(shred.spec_payload().header.slice_index) ==> final(self).commitment_cache == old(self).commitment_cache,
+        // [C13.contradictory_last_slice_markers_are_equivocation]
+        (!(old(self).commitment_cache@.contains_key(shred.spec_payload().header.slice_index)
+            && old(self).commitment_cache@[shred.spec_payload().header.slice_index] != shred.spec_commitment())
+          && (old(self).last_slice matches Some(l) && !BlockData::last_consistent(l, shred.spec_payload().header.slice_index, shred.spec_payload().header.is_last)))
+            ==> r == Err::<Option<BlockstoreEvent>, AddShredError>(AddShredError::Equivocation)
+                && final(self).shreds == old(self).shreds && final(self).slices == old(self).slices && final(self).completed == old(self).completed,
+        // [C13.last_marker_below_a_stored_slice_is_equivocation] (the same contradiction, met in the other arrival order)
+        (!(old(self).commitment_cache@.contains_key(shred.spec_payload().header.slice_index)
+            && old(self).commitment_cache@[shred.spec_payload().header.slice_index] != shred.spec_commitment())
+          && old(self).last_slice is None && shred.spec_payload().header.is_last
+          && (exists|k: SliceIndex| old(self).shreds@.contains_key(k) && k.0 > shred.spec_payload().header.slice_index.0))
+            ==> r == Err::<Option<BlockstoreEvent>, AddShredError>(AddShredError::Equivocation),
+        // [C13.first_shred_announced_exactly_once]
+        r matches Ok(Some(BlockstoreEvent::FirstShred(sl))) ==> sl == old(self).slot && (forall|k: SliceIndex| !old(self).shreds@.contains_key(k)),
+        (r is Ok && (forall|k: SliceIndex| !old(self).shreds@.contains_key(k))) ==> r == Ok::<Option<BlockstoreEvent>, AddShredError>(Some(BlockstoreEvent::FirstShred(old(self).slot))),
+        r is Ok ==> final(self).shreds@.contains_key(shred.spec_payload().header.slice_index),
+        // [C13.accepted_shred_is_stored_and_nothing_stored_is_lost]
+        r is Ok ==> row_at(final(self).shreds@, shred.spec_payload().header.slice_index, shred.spec_payload().shred_index.0 as int) == Some(shred),
+        // [C13.duplicate_position_is_refused]
+        (old(self).shreds@.contains_key(shred.spec_payload().header.slice_index)
+            && row_at(old(self).shreds@, shred.spec_payload().header.slice_index, shred.spec_payload().shred_index.0 as int) is Some) ==> r is Err,
+        // [C13.block_announced_only_when_completed_now]
+        r matches Ok(Some(BlockstoreEvent::Block { slot, block_info })) ==> slot == old(self).slot && old(self).completed is None
+            && final(self).completed is Some && (final(self).completed->0).0 == block_info.hash && block_info.parent.0.0 < old(self).slot.0,
+        !(r matches Ok(Some(BlockstoreEvent::Block { .. }))) ==> final(self).completed == old(self).completed,
+closure 0
+        params ind: SliceIndex
+        ret bb: bool
+        ensures bb == (ind.0 > slice_index.0)
+before `let header = &shred.payload().header;`
+        let ghost pre = *old(self);
+before `match self.last_slice {`
+        let ghost a = *self;
+        proof {
+            assert(a.commitment_cache@.contains_key(slice_index) && a.commitment_cache@[slice_index] == shred.spec_commitment());
+            assert forall|k: SliceIndex, i: int| a.shreds@.contains_key(k) && 0 <= i < TOTAL_SHREDS && (#[trigger] row_at(a.shreds@, k, i)) is Some implies
+                (row_at(a.shreds@, k, i)->0).spec_payload().header.slice_index == k
+                && a.commitment_cache@.contains_key(k) && a.commitment_cache@[k] == (row_at(a.shreds@, k, i)->0).spec_commitment() by {
+                assert(row_at(pre.shreds@, k, i) == row_at(a.shreds@, k, i));
+            }
+            assert(a.wf());
+        }
+before `let is_first_shred = verif_shreds_is_empty(&self.shreds);`
+        let ghost b = *self;
+        proof {
+            assert(a.shreds == pre.shreds);
+            assert forall|k: SliceIndex| #[trigger] b.shreds@.contains_key(k) <==> pre.shreds@.contains_key(k) by {
+                if pre.last_slice is None && is_last { if k.0 > slice_index.0 { assert(!a.shreds@.contains_key(k)); } }
+            }
+            assert(b.wf());
+            assert(b.commitment_cache == a.commitment_cache);
+            assert(b.last_slice matches Some(l) ==> slice_index.0 <= l.0);
+        }
+after `let slice_shreds = verif_shreds_entry(&mut self.shreds, slice_index);`
+        let ghost rowb = *slice_shreds;
+after `if verif_row_is_some(slice_shreds, shred_index.inner()) {`
+        proof {
+            assert(b.shreds@.contains_key(slice_index));
+            assert(self.shreds@ =~= b.shreds@);
+            assert forall|k: SliceIndex, i: int| self.shreds@.contains_key(k) && 0 <= i < TOTAL_SHREDS implies #[trigger] row_at(self.shreds@, k, i) == row_at(b.shreds@, k, i) by {}
+        }
+after `verif_row_set(slice_shreds, shred_index.inner(), Some(shred));`
+        let ghost rowc = *slice_shreds;
+        let ghost c = *self;
+        proof {
+            assert(c.shreds@ == b.shreds@.insert(slice_index, rowc));
+            assert(rowc@ == rowb@.update(shred_index.0 as int, Some(shred)));
+            assert forall|k: SliceIndex, i: int| c.shreds@.contains_key(k) && 0 <= i < TOTAL_SHREDS && (#[trigger] row_at(c.shreds@, k, i)) is Some implies
+                (row_at(c.shreds@, k, i)->0).spec_payload().header.slice_index == k
+                && c.commitment_cache@.contains_key(k) && c.commitment_cache@[k] == (row_at(c.shreds@, k, i)->0).spec_commitment() by {
+                if k == slice_index {
+                    if i != shred_index.0 as int {
+                        assert(rowc@[i] == rowb@[i]);
+                        assert(b.shreds@.contains_key(k) && row_at(b.shreds@, k, i) == rowb@[i]);
+                    }
+                } else { assert(row_at(c.shreds@, k, i) == row_at(b.shreds@, k, i)); }
+            }
+            assert(c.wf());
+            assert(row_at(c.shreds@, slice_index, shred_index.0 as int) == Some(shred));
+        }
+before `return Ok(Some(BlockstoreEvent::FirstShred(self.slot)));`
+        proof {
+            assert forall|k: SliceIndex| !pre.shreds@.contains_key(k) by { assert(!b.shreds@.contains_key(k)); }
+        }
+@*/
+
+}
+
+impl SlotBlockData {
+/*@ extract src/consensus/blockstore/slot_block_data.rs :: impl SlotBlockData/fn add_shred_from_dissemination
+props C13
+ret r
+requires
+        old(self).disseminated.wf(),
+        shred.spec_payload().shred_index.0 < TOTAL_SHREDS && shred.spec_payload().header.slice_index.0 < 1024,
+ensures
+        final(self).disseminated.wf(),
+        // [C13.nothing_from_dissemination_after_misbehaviour]
+        old(self).leader_misbehaved ==> r is Err && final(self).disseminated == old(self).disseminated,
+        final(self).leader_misbehaved == old(self).leader_misbehaved && final(self).repaired == old(self).repaired,
+@*/
+/*@ extract src/consensus/blockstore/slot_block_data.rs :: impl SlotBlockData/fn mark_leader_misbehaved
+props C13
+ret r
+ensures
+        // [C13.invalid_block_announced_once]
+        r == !old(self).leader_misbehaved && final(self).leader_misbehaved,
+        final(self).disseminated == old(self).disseminated && final(self).repaired == old(self).repaired,
+@*/
+}
+
+impl BlockData {
 // Canary: MUST fail (claims reconstruction never completes).
 /*@ extract src/consensus/blockstore/slot_block_data.rs :: impl BlockData/fn try_reconstruct_block
 as canary_try_reconstruct_block
